@@ -183,3 +183,44 @@ class Resolver:
             if m and len(m) == 1:
                 return self.literal(m[0], depth + 1)
         return None
+
+
+def encoder_param_kinds(facts, fname, _stack=()):
+    """{parameter: 'reg' | 'other'} of a module-level encoder: a parameter is register-kinded when its value reaches
+    lookup_register - in the function itself or in a function it is forwarded to (a_type -> r_type, a `reg_field(rd)` helper).
+    Value-kind dataflow over the syntax tree; independent of the bit-level interpreter."""
+    fn = facts.funcs.get(fname)
+    if fn is None:
+        raise AnalysisError('anchor vanished: encoder {}'.format(fname))
+    params = [a.arg for a in fn.args.posonlyargs + fn.args.args + fn.args.kwonlyargs]
+    kinds = {p: 'other' for p in params}
+    if fname in _stack or len(_stack) > 4:
+        return kinds
+    # a parameter rebound before it is looked up no longer carries the operand itself (only `p = lookup_register(p)` style
+    # rebinding is the lookup); aliases `r = p` are followed one step
+    alias = {}
+    for n in walk_no_nested(fn):
+        if isinstance(n, ast.Assign) and len(n.targets) == 1 and isinstance(n.targets[0], ast.Name) and isinstance(n.value, ast.Name) and n.value.id in params:
+            alias[n.targets[0].id] = n.value.id
+    for n in ast.walk(fn):
+        if not isinstance(n, ast.Call) or not isinstance(n.func, ast.Name):
+            continue
+        callee = n.func.id
+        if callee == 'lookup_register':
+            if n.args and isinstance(n.args[0], ast.Name):
+                p = alias.get(n.args[0].id, n.args[0].id)
+                if p in kinds:
+                    kinds[p] = 'reg'
+        elif callee in facts.funcs and callee != fname:
+            sub = None
+            cfn = facts.funcs[callee]
+            cpos = [a.arg for a in cfn.args.posonlyargs + cfn.args.args]
+            pairs = [(cpos[i], a) for i, a in enumerate(n.args) if i < len(cpos) and not isinstance(a, ast.Starred)]
+            pairs += [(k.arg, k.value) for k in n.keywords if k.arg is not None]
+            for cp, a in pairs:
+                if isinstance(a, ast.Name) and alias.get(a.id, a.id) in kinds:
+                    if sub is None:
+                        sub = encoder_param_kinds(facts, callee, _stack + (fname,))
+                    if sub.get(cp) == 'reg':
+                        kinds[alias.get(a.id, a.id)] = 'reg'
+    return kinds
